@@ -50,6 +50,7 @@ def run(v, tier, replay):
                             dict(config=o, got=rr["got"]))
                 break
     v.cov["configurations_executed_on_impl"] = len(lst)
+    v.cov["traces_validated_against_impl"] += len(lst)
     v.cov["valid_configurations"] = nvalid
     v.cov["reason_agreement"] = "%d/%d" % (reason_agree, 3 * len(lst))
     v.sample(dict(kind="configuration (spec) -> real verifier", config=lst[0], got=res[0]["got"]))
